@@ -922,6 +922,13 @@ class Parity(Sub):
         if as_logical(oe) is not (not odd):
             out.append(fail('ISEVEN(%s): integer part %d, expected %s, got %r' % (
                 what, math.trunc(Fraction(v)), show(not odd), oe), V(not odd), oe))
+        # "complementary", as a user can write it: under the library's own comparison (TRUE <> 1) the two predicates
+        # must answer with logicals for ISODD(x) = NOT(ISEVEN(x)) to hold
+        if not out:
+            oc = env.evo('ISODD(%s)=NOT(ISEVEN(%s))' % (arg, arg), vars=vs)
+            if oc != ['v', True]:
+                out.append(fail('ISODD(%s)=NOT(ISEVEN(%s)) gives %r; ISODD gives %r, ISEVEN gives %r (complementary predicates)' % (
+                    what, arg, oc, oo, oe), V(True), oc))
         return out
 
 
